@@ -55,15 +55,21 @@ struct Harness {
    void refuse_empty(const Type& x, const char* what)
    {
       ctx().count("empty_set_requests");
-      try {
-         auto& r = lex.get_qualified(Qualifiers{}, x);
-         (void)r;
-         ctx().viol(std::string("empty-set-accepted:") + what, "get_qualified with an empty qualifier set returned a node instead of refusing");
-      } catch (...) { ctx().count("empty_set_refused"); }
-      try {
-         with_static_type<const Qualified*>(x, [&](const auto& y) { return &lex.get_qualified(Qualifiers{}, y); });
-         ctx().viol(std::string("empty-set-accepted:") + what, "get_qualified with an empty qualifier set returned a node instead of refusing");
-      } catch (...) { ctx().count("empty_set_refused"); }
+      // the same refused request several times in a row (a refusal must not depend on what was asked just before, a refused
+      // request included), through both the general entry point and the operand's most-derived static type
+      for (int rep = 0; rep < 3; ++rep) {
+         try {
+            auto& r = lex.get_qualified(Qualifiers{}, x);
+            (void)r;
+            ctx().viol(std::string("empty-set-accepted:") + what + (rep ? ":repeated-request" : ""), "get_qualified with an empty qualifier set returned a node instead of refusing");
+         } catch (...) { ctx().count("empty_set_refused"); }
+      }
+      for (int rep = 0; rep < 3; ++rep) {
+         try {
+            with_static_type<const Qualified*>(x, [&](const auto& y) { return &lex.get_qualified(Qualifiers{}, y); });
+            ctx().viol(std::string("empty-set-accepted:") + what + (rep ? ":repeated-request" : ""), "get_qualified with an empty qualifier set returned a node instead of refusing");
+         } catch (...) { ctx().count("empty_set_refused"); }
+      }
    }
 
    // apply qualifier sets q[0..k) successively to T, check the normal form
